@@ -104,3 +104,51 @@ Definition inc_case_ok (tol scale : Q) (i : inc (K:=Qops)) (t : tables)
               evals
   | _, _ => false
   end.
+
+(* ---------- C13: merges ---------- *)
+From PG Require Import Thermo.Merge.
+
+Definition eq0 (a b : Q) : Q := if Qeq_bool a b then 0 else BADQ.
+Definition Qmax' (a b : Q) : Q := if Qle_bool a b then b else a.
+Definition isclose15 (a b : Q) : bool :=
+  Qle_bool (Qabs (a - b)) ((1 # 1000000000000000) * Qmax' (Qabs a) (Qabs b)).
+Definition Qcorr_update := corr_update (K:=Qops) eq0 eq0 eq0 isclose15.
+
+Definition oq_same (tol : Q) (a b : option Q) : bool :=
+  match a, b with
+  | None, None => true
+  | Some x, Some y => close tol (1 + Qabs x + Qabs y) x y
+  | _, _ => false
+  end.
+Fixpoint tab_same (tol : Q) (a b : list (Q * Q)) : bool :=
+  match a, b with
+  | [], [] => true
+  | (t, v) :: a', (t', v') :: b' =>
+      Qeq_bool t t' && close tol (1 + Qabs v + Qabs v') v v' && tab_same tol a' b'
+  | _, _ => false
+  end.
+Definition orange_same (a b : option (Q * Q)) : bool :=
+  match a, b with
+  | None, None => true
+  | Some (x, y), Some (x', y') => Qeq_bool x x' && Qeq_bool y y'
+  | _, _ => false
+  end.
+Definition inc_same (tol : Q) (a b : inc (K:=Qops)) : bool :=
+  oq_same tol (i_H a) (i_H b) && oq_same tol (i_S a) (i_S b)
+  && tab_same tol (i_tab a) (i_tab b) && Qeq_bool (i_Tref a) (i_Tref b)
+  && orange_same (i_range a) (i_range b).
+Definition oerr_same (a b : option terr) : bool :=
+  match a, b with
+  | None, None => true
+  | Some x, Some y => terr_same x y
+  | _, _ => false
+  end.
+
+Definition step := (inc (K:=Qops) * bool * (inc (K:=Qops) * option terr))%type.
+Fixpoint run_steps (tol : Q) (cur : inc (K:=Qops)) (steps : list step) : bool :=
+  match steps with
+  | [] => true
+  | (o, ow, (est, eerr)) :: r =>
+      let '(n, e) := Qcorr_update cur o ow in
+      inc_same tol n est && oerr_same e eerr && run_steps tol n r
+  end.
